@@ -443,6 +443,7 @@ def run(P, rep, tier):
     r161(P, rep)
     r165(P, rep)
     r166(P, rep)
+    r166_forms(P, rep)
 
 
 def r_atomic_operand_type(P, rep, rule):
@@ -460,3 +461,51 @@ def r_atomic_operand_type(P, rep, rule):
                 rep.ob(rule, 'parse.c:to_assign:atomic-operand-keeps-its-type', o['verdict'] == 'holds', o['what'], where=o['where'])
     if n == 0:
         rep.undecided(rule, 'parse.c:to_assign:atomic-operand-keeps-its-type', 'the compare-exchange rewrite of to_assign was not recognised (see C16 R16.2)')
+
+
+def r166_forms(P, rep):
+    """both spellings of the atomic type: `_Atomic T` (qualifier, any position) and `_Atomic(T)` (specifier) must yield a type that
+    carries is_atomic - it is the only thing that routes op=, ++ and -- to the compare-exchange loop (R16.1) - on a private copy, leaving the
+    shared type object untouched. declspec is interpreted on concrete token sequences (machinery of C08 R08.1)."""
+    from ..interp import _Ref, _ValPlace
+    from . import c08
+    u = P.unit('parse.c')
+    if 'declspec' not in u.functions:
+        raise AnalysisBroken('parse.c: declspec vanished')
+    where = 'parse.c:%d' % u.fn('declspec').line
+    tw = c08.TokenWorld(P, u)
+    tyglob = c08.type_globals(P)
+    cfg = {'models': tw.models(), 'globals': {g: (lambda ctx, g=g: Obj('Type', lazy=False, label=g, fields=dict(tyglob[g]))) for g in tyglob}}
+    it = c08._LocalEnumInterp(P, u, cfg)
+    it.local_enums = c08._local_enums(u.fn('declspec'))
+    bases = {'char': ('char',), 'short': ('short',), 'int': ('int',), 'long': ('long',), 'unsigned': ('unsigned',), 'unsigned long': ('unsigned', 'long'), '_Bool': ('_Bool',)}
+    for bname, words in bases.items():
+        forms = {'qualifier-first': ('_Atomic',) + words, 'qualifier-last': words + ('_Atomic',), 'specifier': ('_Atomic', '(') + words + (')',)}
+        plain = None
+        for fname, seq in [('plain', words)] + list(forms.items()):
+            key = 'parse.c:declspec:atomic-%s/%s' % (fname, bname.replace(' ', '-'))
+            rest = _ValPlace(0)
+            try:
+                paths = it.explore('declspec', lambda ctx: [_Ref(rest), tw.tokens(seq), Obj('VarAttr', lazy=False)], max_paths=50)
+            except Exception as e:
+                rep.undecided('R16.6', key, 'declspec not interpretable on `%s`: %s' % (' '.join(seq), e), where=where); continue
+            if len(paths) != 1 or paths[0][1][0] != 'ret' or not isinstance(paths[0][1][1], Obj):
+                rep.undecided('R16.6', key, 'declspec on `%s`: %d paths / no type returned' % (' '.join(seq), len(paths)), where=where); continue
+            ctx, out = paths[0]
+            t = out[1]
+            shared = [g for g, o in ctx.globals.items() if o is t]
+            if fname == 'plain':
+                plain = (t.fields.get('kind'), t.fields.get('size'), t.fields.get('is_unsigned', 0))
+                rep.ob('R16.6', key, not t.fields.get('is_atomic'), '`%s` without _Atomic yields an atomic type' % ' '.join(seq), where=where)
+                continue
+            msgs = []
+            if not t.fields.get('is_atomic'):
+                msgs.append('the type of `%s` does not carry is_atomic: op=, ++ and -- on such an object are compiled as plain load/modify/store and lose concurrent updates' % ' '.join(seq))
+            if shared:
+                msgs.append('is_atomic is set on the shared type object %s: every later object of that type becomes atomic' % shared[0])
+            polluted = [g for g, o in ctx.globals.items() if isinstance(o, Obj) and o.tname == 'Type' and o.fields.get('is_atomic') and o is not t]
+            if polluted:
+                msgs.append('shared type object(s) %s are marked atomic as a side effect' % polluted)
+            if plain is not None and (t.fields.get('kind'), t.fields.get('size'), t.fields.get('is_unsigned', 0)) != plain:
+                msgs.append('the atomic type differs from `%s` in kind/size/signedness' % ' '.join(words))
+            rep.ob('R16.6', key, not msgs, '; '.join(msgs), where=where)
